@@ -89,8 +89,17 @@ class Check:
         key = (race, tags)
         if key in self.harness_bin:
             return self.harness_bin[key]
-        hdir = os.path.join(VERIF, "harness")
-        shutil.copy(os.path.join(REPO, "go.sum"), os.path.join(hdir, "go.sum"))
+        # build from a scratch copy of the harness sources whose go.mod points at the
+        # repository under test (normally /repo; VERIF_REPO for scratch worktrees)
+        hdir = os.path.join(self.scratch, "hsrc")
+        if not os.path.isdir(hdir):
+            shutil.copytree(os.path.join(VERIF, "harness"), hdir,
+                            ignore=shutil.ignore_patterns("harness", "harness-race", "go.sum"))
+            with open(os.path.join(hdir, "go.mod")) as f:
+                gm = f.read()
+            with open(os.path.join(hdir, "go.mod"), "w") as f:
+                f.write(gm.replace("=> /repo", "=> " + REPO))
+            shutil.copy(os.path.join(REPO, "go.sum"), os.path.join(hdir, "go.sum"))
         out = os.path.join(self.scratch, "harness-race" if race else "harness")
         env = goenv()
         cmd = ["go", "build", "-tags", tags]
@@ -298,7 +307,9 @@ class Check:
                     self.known_hits[k["key"]] = k.get("what", "")
                 return
         sha = hashlib.sha1(json.dumps(payload, sort_keys=True, ensure_ascii=False).encode()).hexdigest()[:12]
-        rdir = os.path.join(VERIF, "replays", self.prop)
+        rdir = os.path.join(os.environ.get("VERIF_REPLAY_DIR") or os.path.join(VERIF, "replays"), self.prop)
+        if os.environ.get("VERIF_NO_EVIDENCE"):
+            rdir = os.path.join(self.scratch + "-replays", self.prop)
         os.makedirs(rdir, exist_ok=True)
         path = os.path.join(rdir, sha + ".json")
         payload = dict(payload)
@@ -333,9 +344,10 @@ class Check:
             "coverage": cov, "assumptions": self.assumptions, "wall_s": round(wall, 1),
             "violations": len(self.violations),
         }
-        os.makedirs(os.path.join(VERIF, "evidence"), exist_ok=True)
-        with open(os.path.join(VERIF, "evidence", self.prop + ".json"), "w") as f:
-            json.dump(ev, f, indent=1, ensure_ascii=False)
+        if not os.environ.get("VERIF_NO_EVIDENCE"):
+            os.makedirs(os.path.join(VERIF, "evidence"), exist_ok=True)
+            with open(os.path.join(VERIF, "evidence", self.prop + ".json"), "w") as f:
+                json.dump(ev, f, indent=1, ensure_ascii=False)
         for k, what in sorted(self.known_hits.items()):
             print("KNOWN-FINDING: property=%s %s [%s]" % (self.prop, what, k))
         seen = set()
